@@ -126,6 +126,34 @@ func (s *sim) send(src, dst *node, m outMsg, released bool) {
 			}
 		}
 	}
+	if !released && s.cfg.SplitPolkaPm > 0 && m.proto == module.ProtoConsensus && m.sub == consensus.ProtoVote {
+		// "split polka": in some rounds the prevotes reach only part of the validators, so that
+		// those lock (or see the polka late, through vote lists) while the others time out and
+		// precommit nil: the following rounds run with different locks on different validators,
+		// re-proposals with a proof-of-lock round and unlock decisions
+		if msg, err := consensus.UnmarshalMessage(uint16(m.sub), m.data); err == nil {
+			if vm, ok := msg.(*consensus.VoteMessage); ok && vm.Type == consensus.VoteTypePrevote && vm.Round < 3 {
+				k := fmt.Sprintf("%d/%d", vm.Height, vm.Round)
+				mask, seen := s.polkaSplit[k]
+				if !seen {
+					if s.polkaSplit == nil {
+						s.polkaSplit = map[string]int{}
+					}
+					if s.tape.Permille("split.on", s.cfg.SplitPolkaPm) && len(s.nodes) > 1 {
+						mask = 1 + s.tape.Choose("split.mask", (1<<len(s.nodes))-2)
+						s.rc.Fault("polka_split_round")
+						s.rc.Event("SPLIT-POLKA %s starved-mask=%b", k, mask)
+					}
+					s.polkaSplit[k] = mask
+				}
+				if mask&(1<<dst.idx) != 0 && s.tape.Permille("split.drop", 900) {
+					s.rc.Fault("prevote_withheld_by_split")
+					s.rc.Event("DROP-PV %s", tag)
+					return
+				}
+			}
+		}
+	}
 	if !released && s.tape.Permille("drop", s.cfg.DropPm) {
 		s.rc.Fault("drop")
 		s.rc.Event("DROP %s", tag)
